@@ -2,6 +2,7 @@
 C03 — max-iterations is a hard ceiling; iteration ids are unique and gapless.
 -/
 import F1Verif.Model.Iteration
+import F1Verif.Props.Pool
 namespace F1.Props.C03
 open F1.Iteration
 
@@ -62,5 +63,33 @@ theorem C03_reached_iff_refused (N c : Nat) : reached N (next N c).1 = true ↔ 
 
 -- non-vacuity
 example : calls 3 5 0 = [some 1, some 2, some 3, none, none] := by decide
+
+/-! ### lifted to the pool: every schedule of workers competing for the last ids -/
+
+/-- in every reachable state of the pool the number of started iterations is the number of ids
+handed out (all of them without a limit, at most `N` with one): every started iteration has a
+distinct id from `1..started`, and `started ≤ N`. -/
+theorem C03_pool_started (W N : Nat) (evs : List F1.TriggerPool.Ev) (s : F1.TriggerPool.State)
+    (h : F1.TriggerPool.run false (F1.TriggerPool.init W N) evs = some s) :
+    (N = 0 → s.started = s.counter) ∧ (N > 0 → s.started = min (s.counter : Int) N ∧ s.started ≤ N) := by
+  have c := (F1.Props.Pool.reachable_init W N evs s h).1
+  have hl : s.limit = N := by
+    have : ∀ (evs : List F1.TriggerPool.Ev) (a b : F1.TriggerPool.State), F1.TriggerPool.run false a evs = some b → b.limit = a.limit := by
+      intro evs
+      induction evs with
+      | nil => intro a b h; simp only [F1.TriggerPool.run] at h; cases h; rfl
+      | cons e es ih =>
+        intro a b h
+        simp only [F1.TriggerPool.run] at h
+        split at h
+        · cases h
+        · rename_i a1 h1
+          rw [ih a1 b h]
+          cases e <;> simp only [F1.TriggerPool.step, Bool.false_eq_true, false_or, true_and, Bool.not_false, Bool.true_and] at h1 <;>
+            (repeat' split at h1) <;> cases h1 <;> rfl
+    exact this evs _ _ h
+  have := c.ids
+  rw [hl] at this
+  exact ⟨this.1, fun hN => ⟨this.2 hN, by have := this.2 hN; omega⟩⟩
 
 end F1.Props.C03
